@@ -536,3 +536,7 @@ impl<C: Client> std::fmt::Debug for MqttRunner<C> {
         f.debug_struct("MqttRunner").finish()
     }
 }
+
+#[cfg(feature = "verif-hooks")]
+#[path = "verif_hooks_c17.rs"]
+pub mod verif_hooks_c17;
